@@ -149,6 +149,8 @@ class P:
                 if self.at(","):
                     self.eat(",")
             self.eat(">")
+            if not args:
+                return ("path", name)          # lifetimes only: `DateParser<'a>`
             return ("generic", name, args)
         return ("path", name)
 
@@ -209,6 +211,15 @@ class P:
                     e = ("tfield", e, int(self.next()))
                     continue
                 name = self.next()
+                if self.at("::") and self.peek(1) == "<":
+                    # turbofish: `.parse::<i32>()` is the method `parse::<i32>`
+                    self.eat("::")
+                    self.eat("<")
+                    t_ = self.ty()
+                    self.eat(">")
+                    if t_[0] != "path":
+                        raise Unsupported("turbofish with %r" % (t_,))
+                    name = name + "::<" + t_[1] + ">"
                 if self.at("("):
                     e = ("method", name, e, self.args())
                 else:
@@ -419,6 +430,8 @@ class P:
         if v == "_":
             self.next()
             return ("pwild",)
+        if k == "str":
+            return ("pstr", self.next())
         if v in ("mut", "ref"):
             self.next()
             return self.pattern()
@@ -741,6 +754,19 @@ def parse_file(src, module):
     impl_suffix = []     # per impl: "" or "::<trait argument>" (impl TryFrom<u32> for Month)
     item_macros = {}     # name -> (var, body tokens) for  ($($t:ty),* $(,)?) => { $( BODY )* }
 
+    def skip_lifetimes():
+        """`<'a, 'b>` after a name: skip it and say so; any other generic parameter list is left alone"""
+        if not p.at("<"):
+            return True
+        j = 1
+        while p.peek(j) != ">":
+            if p.kind(j) != "life" and p.peek(j) != ",":
+                return False
+            j += 1
+        for _ in range(j + 1):
+            p.next()
+        return True
+
     def skip_item_block():
         while not p.at("{") and not p.at(";"):
             p.next()
@@ -784,7 +810,7 @@ def parse_file(src, module):
         elif v == "struct":
             p.next()
             name = p.next()
-            if p.at("<"):
+            if not skip_lifetimes():
                 skip_item_block()
                 continue
             if p.at(";"):
@@ -869,7 +895,15 @@ def parse_file(src, module):
                 if p.peek(j) == "for":
                     is_trait = True
                 j += 1
-            if p.peek(1) == "<":
+            if p.peek(1) == "<" and not is_trait and p.kind(2) == "life" and p.peek(3) == ">":
+                # impl<'a> Type<'a> { … }
+                for _ in range(4):
+                    p.next()
+                impl_stack.append(q + p.next())
+                impl_suffix.append("")
+                skip_lifetimes()
+                p.eat("{")
+            elif p.peek(1) == "<":
                 while not p.at("{"):
                     p.next()
                 p.skip_balanced("{", "}")
